@@ -332,17 +332,35 @@ def redirect_case():
 
 
 def exh_cases():
+    # every code point 0..255 at every position that anchors and quoting shortcuts treat differently:
+    # inside, first, last (a '$' anchor lets one trailing LF through), alone, and inside a value that
+    # already looks quoted
+    shapes = {
+        "middle": lambda ch: "a" + ch + "b",
+        "first": lambda ch: ch + "ab",
+        "last": lambda ch: "ab" + ch,
+        "alone": lambda ch: ch,
+        "quoted": lambda ch: '"a' + ch + 'b"',
+    }
     for cp in range(256):
         ch = chr(cp)
-        for where in ("key", "value"):
-            k = ("x" + ch + "y") if where == "key" else "x-t"
-            v = ("a" + ch + "b") if where == "value" else "v"
-            for op in (
-                ["set", k, v], ["append", k, v], ["setdefault", k, v], ["update_map", [[k, v]]], ["update_pairs", [["x-ok", "1"], [k, v]]],
-                ["update_headers", [[k, v]]],
-            ):
-                yield {"response": "empty", "ops": [["set", "x-t", "old"], op], "cookies": []}
-            yield {"response": "empty", "ops": [], "cookies": [{"name": "n" if where == "value" else k, "value": v if where == "value" else "v", "delete": False}]}
+        for shape, build in shapes.items():
+            for where in ("key", "value"):
+                if where == "key" and shape == "quoted":
+                    continue
+                k = ("x" + build(ch) + "y" if shape == "middle" else build(ch)) if where == "key" else "x-t"
+                v = build(ch) if where == "value" else "v"
+                if where == "key" and k.lower() in ("set-cookie", "content-length", "content-type", "location", ""):
+                    continue
+                if shape == "middle":
+                    ops = (["set", k, v], ["append", k, v], ["setdefault", k, v], ["update_map", [[k, v]]], ["update_pairs", [["x-ok", "1"], [k, v]]], ["update_headers", [[k, v]]])
+                else:
+                    ops = (["set", k, v], ["append", k, v], ["update_pairs", [[k, v]]])
+                for op in ops:
+                    yield {"response": "empty", "ops": [["set", "x-t", "old"], op], "cookies": []}
+                yield {"response": "empty", "ops": [], "cookies": [{"name": "n" if where == "value" else k, "value": v if where == "value" else "v", "delete": False}]}
+                if where == "key" and shape != "middle":
+                    yield {"response": "empty", "ops": [], "cookies": [{"name": k, "value": "v", "delete": True}]}
 
 
 def run(rec, only=None):
